@@ -451,6 +451,40 @@ def encodeFields : List (Str × PyVal) → List (Str × Json)
     | v => (k, encode v) :: encodeFields r
 end
 
+namespace Legacy
+/-! The encoder of the pinned tree: `SchemaMagic.__init__` did not chain to
+`DynJsonEncoderMetaMixin.__init__`, so schema classes kept pydantic's own encoder, which raises
+`TypeError` for every value whose class only has a *registered* encoder. -/
+mutual
+def encode? : PyVal → Option Json
+  | .none => some .null
+  | .bool b => some (.bool b)
+  | .int i => some (.int i)
+  | .float t => some (.float t)
+  | .str s => some (.str s)
+  | .opq _ _ => none
+  | .list vs => (encodeList? vs).map .arr
+  | .set vs => (encodeList? vs).map .arr
+  | .obj _ fs cs xs =>
+    (encodeFields? fs).map (fun l => .obj (l ++ cs ++ xs.filter (fun p => !isNull p.2)))
+def encodeList? : List PyVal → Option (List Json)
+  | [] => some []
+  | v :: vs =>
+    match encode? v, encodeList? vs with
+    | some j, some js => some (j :: js)
+    | _, _ => none
+def encodeFields? : List (Str × PyVal) → Option (List (Str × Json))
+  | [] => some []
+  | (k, v) :: r =>
+    match v with
+    | .none => encodeFields? r
+    | v =>
+      match encode? v, encodeFields? r with
+      | some j, some js => some ((k, j) :: js)
+      | _, _ => none
+end
+end Legacy
+
 /-- `encode : Ty → PyVal → Json` of the design: the type plays no role, the registered
 encoders are selected by the class of the value (`encoder.py:72-82`). -/
 def encodeAt (_ : Ty) (v : PyVal) : Json := encode v
